@@ -270,7 +270,7 @@ func (g *gen) intExpr(typ string, depth int) string {
 		op := g.oneOf("divop", []string{"/", "%"})
 		var d string
 		if g.chance("vardiv", 4) && !g.off["fault.divzero"] && g.mayFault() {
-			d = g.expr(typ, depth-1)
+			d = g.nonConst(typ, depth-1) // a constant zero divisor is a compile-time error
 			g.feat("div_by_variable")
 		} else {
 			d = typ + "(" + g.oneOf("nz", []string{"1", "2", "3", "7", "10"}) + ")"
